@@ -5,9 +5,27 @@ package liquid
 import (
 	nd "github.com/osteele/liquid/zz_verifnd"
 	yaml "gopkg.in/yaml.v2"
+	"math"
 )
 
-const c01Kinds = 18
+const c01Kinds = 24
+
+type c01Inner struct{ X int }
+
+type c01Outer struct {
+	*c01Inner
+	Y int
+}
+
+type c01Meth struct{}
+
+func (c01Meth) Zone() (string, int)    { return "UTC", 0 }
+func (c01Meth) None()                  {}
+func (c01Meth) Arg(x int) string       { return "a" }
+func (c01Meth) Ok() (string, error)    { return "ok", nil }
+func (c01Meth) Three() (int, int, int) { return 1, 2, 3 }
+
+type c01Str string
 
 func c01Hostile(k int) any {
 	switch k {
@@ -48,6 +66,20 @@ func c01Hostile(k int) any {
 		return []any{[1]any{[]int{1}}, [1]any{[]int{1}}}
 	case 17:
 		return []*int{nil, nil}
+	case 18:
+		// a field promoted through a nil embedded pointer
+		return c01Outer{Y: 1}
+	case 19:
+		// methods of every shape: two non-error results, no result, an argument, a nil error
+		return c01Meth{}
+	case 20:
+		return c01Str("abc")
+	case 21:
+		return yaml.MapSlice{{Key: []any{1}, Value: 1}, {Key: "k", Value: 2}}
+	case 22:
+		return map[float64]int{math.NaN(): 1, 2: 2}
+	case 23:
+		return (*c18Drop)(nil)
 	default:
 		x := nd.Int()
 		return &x
@@ -70,6 +102,7 @@ var c01TagTemplates = []string{
 	"{% for i in (1..h) limit: 2 %}{{ i }}{% endfor %}",
 	"{% capture h %}x{% endcapture %}{{ h }}",
 	"{{ h }}{{ h.size }}{{ h.first }}{{ h[0] }}{{ h['k'] }}{{ h.A }}{{ h.b }}{{ h | size }}",
+	"{{ h.X }}{{ h.Y }}{{ h.Zone }}{{ h.None }}{{ h.Arg }}{{ h.Ok }}{{ h.Three }}{{ h[k] }}{% if h contains k %}c{% endif %}{% if h contains 'Zone' %}z{% endif %}",
 	"{% assign q = h %}{{ q }}{% assign q = h | default: 1 %}{{ q }}",
 	"{% break %}{% continue %}",
 	"{% for x in (1..2) %}{% for y in h %}{% break %}{% endfor %}{{ x }}{% endfor %}",
@@ -89,7 +122,7 @@ func VerifC01Tags() {
 	if k == 5 && t == c01TagTemplates[7] {
 		h = "no such {% file" // path functions are native: concrete strings only
 	}
-	out, err := vRender(t, Bindings{"h": h})
+	out, err := vRender(t, Bindings{"h": h, "k": []any{1}})
 	nd.Assert(err == nil || out == "", "output-or-error")
 	nd.Reach("C01.tags")
 }
@@ -144,6 +177,7 @@ var c01Sources = []string{
 	"{{ 1 | plus: }}", "{{ 1 | plus: 1, }}", "{% include %}", "{% tablerow x in (1..2) cols: %}{% endtablerow %}",
 	"{% capture %}x{% endcapture %}{{ x }}", "{% capture a b %}x{% endcapture %}", "{% unless %}{% endunless %}",
 	"{% if a == %}{% endif %}", "{% if == a %}{% endif %}", "{% if a and %}{% endif %}", "{% if (a %}{% endif %}",
+	"{{ %assign x = 1 }}", "{% if %loop x in y %}a{% endif %}", "{{ {%cycle \"a\" }}", "{% case {%when 1 %}{% endcase %}", "{% assign v = %assign w = 1 %}",
 	"{{ true.size }}{{ nil.x }}{{ 1.5.first }}", "{{ -a }}", "{{ a--b }}", "{{ a?b }}", "{{ a? }}", "\x00{{ \x00 }}", "{{ \xff }}",
 }
 
